@@ -4,7 +4,7 @@ from props import lcdlib as L
 ID = 'C14'
 PROP_FILE = 'Properties/C14.v'
 # extraction needs every model file of frag_ppu.txt compiled, also those outside this property's closure
-EXTRA_COQ = ['model/Oam.v', 'model/PpuTiming.v']
+EXTRA_COQ = ['model/Oam.v', 'model/PpuTiming.v', 'proofs/OamProofs.v']
 RULE = ('IF bits 0-1 observed after every machine cycle with IF cleared before each cycle: every single STAT '
         'source (HBlank, VBlank, OAM) and no source over 3 frames from power-on; the LYC source with every '
         'LYC 0..153 and out-of-range values over 2 frames; random combinations of sources, LYC changes and LCD '
